@@ -561,6 +561,28 @@ var templates = []tmpl{
 		}
 		return a
 	}},
+	{Name: "compute distance multi", Class: "compute distance", In: "nt", Threads: true, Args: func(x *ctx) []string {
+		// a Phylip file with several data sets: the rows with their columns rotated and, every other
+		// data set, complemented A<->C (different alignments, same names)
+		var sb strings.Builder
+		for j := 0; j < 3+x.k(1, 4); j++ {
+			rows := make([]gen.Row, x.n())
+			for i, r := range x.c.Rows {
+				k := (j * 3) % len(r.Seq)
+				seq := r.Seq[k:] + r.Seq[:k]
+				if (i+j)%2 == 1 {
+					seq = strings.NewReplacer("A", "C", "C", "A", "G", "T", "T", "G").Replace(seq)
+				}
+				rows[i] = gen.Row{Name: r.Name, Seq: seq}
+			}
+			sb.WriteString(phylip(rows))
+		}
+		a := cat("compute", "distance", "-p", "-i", x.file("multi.phy", sb.String()), "-m", ntModels[x.k(0, len(ntModels))], x.opt(2, "-a"))
+		if x.k(3, 3) == 0 {
+			a = append(a, "--alpha", "0.7")
+		}
+		return a
+	}},
 	{Name: "compute distance ranges", In: "nt", Threads: true, Args: func(x *ctx) []string {
 		return cat("compute", "distance", "-i", x.in, "-m", "pdist", "--range1", fmt.Sprintf("0:%d", x.n()/2), "--range2", fmt.Sprintf("%d:%d", x.n()/2, x.n()-1))
 	}},
@@ -617,21 +639,33 @@ var templates = []tmpl{
 		return cat("compress", "-i", x.in, "--weight-out", "weights.txt")
 	}},
 	// ---- several inputs
+	// commands that merge several inputs get inputs whose taxon sets differ: shared names in another
+	// order, names missing from a later input, several names that only a later input brings
 	{Name: "concat", In: "any", Map: true, Args: func(x *ctx) []string {
-		// second alignment: same names in another order, one name missing, one new
+		second, third := otherTaxa(x, "n", 2+x.k(0, 3)), otherTaxa(x, "m", 2+x.k(1, 4))
+		// the third input also holds the names the second one brought, in reverse order
+		for i := len(second) - 1; i >= 0; i-- {
+			if strings.HasPrefix(second[i].Name, "n") {
+				third = append(third, gen.Row{Name: second[i].Name, Seq: third[0].Seq})
+			}
+		}
+		a := cat("concat", "-i", x.in, x.file("second.fa", cli.Fasta(second)))
+		if x.k(2, 3) != 0 {
+			a = append(a, x.file("third.fa", cli.Fasta(third)))
+		}
+		return cat(a, "-l", "concat.log")
+	}},
+	{Name: "concat same taxa", Class: "concat", In: "any", Map: true, Args: func(x *ctx) []string {
 		var rows []gen.Row
-		for i := x.n() - 1; i >= 1; i-- {
+		for i := x.n() - 1; i >= 0; i-- {
 			rows = append(rows, gen.Row{Name: x.c.Rows[i].Name, Seq: x.c.Rows[(i+1)%x.n()].Seq})
 		}
-		rows = append(rows, gen.Row{Name: "extra", Seq: x.c.Rows[0].Seq})
-		return cat("concat", "-i", x.in, x.file("second.fa", cli.Fasta(rows)), "-l", "concat.log")
+		return cat("concat", "-i", "none", x.in, x.file("second.fa", cli.Fasta(rows)), x.in)
 	}},
-	{Name: "append", In: "any", Args: func(x *ctx) []string {
-		var rows []gen.Row
-		for i, r := range x.c.Rows {
-			rows = append(rows, gen.Row{Name: fmt.Sprintf("b%d", i), Seq: r.Seq})
-		}
-		return cat("append", "-i", x.in, x.file("second.fa", cli.Fasta(rows)))
+	{Name: "append", In: "any", Map: true, Args: func(x *ctx) []string {
+		// new names, and names the first input already has (renamed or ignored by the policy)
+		second := otherTaxa(x, "b", 2+x.k(0, 3))
+		return cat("append", "-i", x.in, x.file("second.fa", cli.Fasta(second)), x.file("third.fa", cli.Fasta(otherTaxa(x, "c", 2))), x.pick(1, "", "--ignore-identical=1", "--ignore-identical=2"))
 	}},
 	{Name: "identical", In: "any", Args: func(x *ctx) []string {
 		rows := append([]gen.Row{}, x.c.Rows...)
@@ -656,6 +690,13 @@ var templates = []tmpl{
 			}
 			aa = append(aa, gen.Row{Name: r.Name, Seq: p})
 			nt = append(nt, gen.Row{Name: r.Name, Seq: s})
+		}
+		// the nucleotide file is in another order and holds sequences the protein alignment lacks
+		for i, j := 0, len(nt)-1; i < j; i, j = i+1, j-1 {
+			nt[i], nt[j] = nt[j], nt[i]
+		}
+		for k := 0; k < 1+x.k(0, 3); k++ {
+			nt = append(nt, gen.Row{Name: fmt.Sprintf("only_nt%d", k), Seq: nt[0].Seq})
 		}
 		return cat("codonalign", "-i", x.file("prot.fa", cli.Fasta(aa)), "-f", x.file("nt.fa", cli.Fasta(nt)))
 	}},
@@ -827,6 +868,22 @@ var templates = []tmpl{
 	{Name: "random", In: "any", Random: true, Args: func(x *ctx) []string {
 		return cat("random", "-n", 1+x.k(0, 8), "-l", 1+x.k(1, 90), x.opt(2, "-a"), x.pick(3, "", "-p", "-x", "-u"))
 	}},
+}
+
+// otherTaxa: another alignment of the same length for the commands that merge several inputs: the
+// odd rows of the case in reverse order (so: names shared in another order, the even ones missing)
+// followed by k rows under new names <prefix>0.. (k >= 2: several names only this input brings)
+func otherTaxa(x *ctx, prefix string, k int) []gen.Row {
+	var rows []gen.Row
+	for i := x.n() - 1; i >= 0; i-- {
+		if i%2 == 1 {
+			rows = append(rows, gen.Row{Name: x.c.Rows[i].Name, Seq: x.c.Rows[(i+1)%x.n()].Seq})
+		}
+	}
+	for j := 0; j < k; j++ {
+		rows = append(rows, gen.Row{Name: fmt.Sprintf("%s%d", prefix, j), Seq: x.c.Rows[j%x.n()].Seq})
+	}
+	return rows
 }
 
 // seqbootN: number of replicates, 2-7 in five cases out of six (a single replicate hides every
